@@ -190,7 +190,7 @@ func genMRZ(rt *rapid.T) string {
 // ---- files -----------------------------------------------------------------------------------
 
 func genText(rt *rapid.T, label string, max int) []byte {
-	return []byte(rapid.StringMatching(`[A-Z0-9< ]{0,` + itoa(max) + `}`).Draw(rt, label))
+	return []byte(rapid.StringMatching(`[A-Z0-9< ]{0,`+itoa(max)+`}`).Draw(rt, label))
 }
 
 func itoa(n int) string {
